@@ -959,8 +959,9 @@ func manualReopen(name string, what string, bound int) *vx.Scenario {
 // connected instead of connect-pending and sends CONNECT for the namespace again; the server then drops the whole
 // connection, and a second disconnect / reconnection cycle follows (2 disconnect, 2 reconnect, 3 reconnect_attempt events
 // for one outage). The default schedule (and every schedule of the cases where the reconnection does not succeed) is in
-// the registered list; this one waits for a decision on the repository's side.
-const todoSecondConnectCallThenReconnectionSucceeds = false
+// the registered list. Repaired in /repo (known_findings.json, second "fixed: property=C15" of the ninth round): the
+// scenario is registered, mutant c15-second-connect-subscribes-twice reverts the repair.
+const todoSecondConnectCallThenReconnectionSucceeds = true
 
 // The same Connect() call placed in the DIAL of a reconnection attempt (a dial that takes 20 s until it times out) instead
 // of the back-off before it. At the pinned tree this started a second reconnection cycle after reconnect_failed (the state
